@@ -750,6 +750,36 @@ func (w *world) deletePod(ns, name, label string) error {
 	})
 }
 
+const graceFinalizer = "verif/termination-grace"
+
+// terminatePod: the API server marks the pod as terminating (deletionTimestamp); it stays Running until the kubelet
+// has stopped it (finishTermination).
+func (w *world) terminatePod(name string) error {
+	return w.call(nil, "delete", "pod:"+name+" (graceful)", &target{kind: "pod", ns: workNS, name: name}, nil, func() error {
+		pod := w.getPod(workNS, name)
+		if pod == nil {
+			return apierrors.NewNotFound(v1.Resource("pods"), name)
+		}
+		pod.Finalizers = append(pod.Finalizers, graceFinalizer)
+		if err := w.base.Update(context.Background(), pod); err != nil {
+			return err
+		}
+		w.count("graceful_terminations_started", 1)
+		return w.base.Delete(context.Background(), pod)
+	})
+}
+
+func (w *world) finishTermination(name string) error {
+	return w.call(nil, "delete", "pod:"+name+" (grace period over)", &target{kind: "pod", ns: workNS, name: name}, nil, func() error {
+		pod := w.getPod(workNS, name)
+		if pod == nil {
+			return apierrors.NewNotFound(v1.Resource("pods"), name)
+		}
+		pod.Finalizers = nil
+		return w.base.Update(context.Background(), pod)
+	})
+}
+
 func (w *world) deleteBR(name string) error {
 	return w.call(nil, "delete", "br:"+name, &target{kind: "br", ns: workNS, name: name}, nil, func() error {
 		br := w.getBR(workNS, name)
@@ -790,6 +820,14 @@ func (w *world) startKubelet(name string) {
 		case "delete-after-run":
 			time.Sleep(time.Duration(pp.FateDelayUs) * time.Microsecond)
 			_ = w.deletePod(workNS, name, "pod:"+name)
+		case "delete-graceful":
+			time.Sleep(time.Duration(pp.FateDelayUs) * time.Microsecond)
+			if w.terminatePod(name) != nil {
+				return
+			}
+			// grace period: the container keeps running on its GPU share
+			time.Sleep(time.Duration((pp.FateDelayUs*7919)%20000) * time.Microsecond)
+			_ = w.finishTermination(name)
 		}
 	})
 }
